@@ -523,7 +523,81 @@ _OWN_VALS = {
     "/a:ty/em": ([""], ["x"], []),
     "/a:ty/idl": (["a:id1"], ["a:idb2", "b:id1"], []),
     "/a:top": (["t", ""], [], []),
+    "/a:tp/ip4": (["10.0.0.1%eth0", "10.0.0.1"], ["10.0.0.256", "10.0.0.1%", ""], []),
+    "/a:tp/ip6": (["2001:db8::1%eth1", "::"], ["2001:db8::g", "1::2::3"], []),
+    "/a:tp/ip": (["10.0.0.2%lo", "2001:db8::2%e2"], ["10.0.0", "x"], []),
+    "/a:tp/pf": (["10.2.0.0/24", "2001:db8:2::/64"], ["10.2.0.0/33", "10.2.0.0"], []),
+    "/a:tp/host": (["h.example.org", "10.0.0.4%z4"], ["-bad-", ""], []),
+    "/a:tp/ubb": (["u1", "YWJj"], ["u9", "YWJ"], []),
+    "/a:tp/uip": (["10.9.9.9%z", "2001:db8:9::/48", "/a:top", "a:id2"], ["x y", "a:idb9"], []),
+    "/a:tp/xp": (["/a:top | //a:c", "count(a:x)"], ["/a:top[", "x:y"], []),
+    "/a:tp/nii": (["/a:c/a:i8", "/"], ["/a:c[", ""], []),
+    "/a:tp/dt": (["2023-01-02T03:04:05.678901+01:00", "2023-01-02T03:04:05Z"], ["2023-13-02T03:04:05Z", "2023-01-02"], []),
+    "/a:tp/hex": (["01:ab:cd", "FF"], ["1:2", "zz"], []),
+    "/a:tp/uuid": (["f81d4fae-7dec-11d0-a765-00a0c91e6bf6"], ["f81d4fae"], []),
+    "/a:tp/lr4": (["10.0.0.1%eth0"], ["10.0.0.256"], ["10.0.0.77%none"]),
+    "/a:tp/lrip": (["10.0.0.2%lo", "2001:db8::99%free"], ["nope"], []),
+    "/a:tp/lrxp": (["/a:tp/a:ip4[. = '1'] | count(//a:top)"], ["/a:top["], ["count(a:zz)"]),
 }
+
+_OWN_TP = [
+    ("ip4", ["10.0.0.1%eth0", "10.0.0.11%wlan0", "10.0.0.1"]), ("ip6", ["2001:db8::1%eth1", "fe80::1%lo", "2001:db8::1"]),
+    ("ip", ["10.0.0.2%lo", "2001:db8::2%e2", "10.0.0.2"]), ("ip4n", ["10.0.0.3", "10.0.0.33"]), ("ip6n", ["2001:db8::3", "::1"]),
+    ("pf4", ["10.1.0.0/16", "10.1.2.0/24"]), ("pf6", ["2001:db8::/32", "2001:db8:1::/48"]), ("pf", ["10.2.0.0/24", "2001:db8:2::/64"]),
+    ("host", ["h.example.org", "10.0.0.4%z4", "2001:db8::4%z6"]), ("bn", ["YWJjZA==", "YQ=="]), ("bt", ["b0 b9", "b1"]),
+    ("ubb", ["u1", "YWJj", "u0 u1"]), ("uip", ["10.9.9.9%z", "2001:db8:9::/48", "/a:tp/a:ipk[a:a='10.0.0.9%k'][a:p='10.3.0.0/16']/a:x", "a:id2"]),
+    ("iid", ["/a:tp/a:ipk[a:a='10.0.0.9%k'][a:p='10.3.0.0/16']/a:x", "/a:top", "/a:tul[.='m']"]), ("idr", ["a:id1", "a:id2"]),
+    ("xp", ["/a:tp/a:ip4[. = '1'] | count(//a:top)", "a:c/a:i8 + 1"]), ("nii", ["/a:c/a:i8", "/a:l[a:k1='a']/a:v"]),
+    ("dt", ["2023-01-02T03:04:05.678901+01:00", "2023-01-02T03:04:05Z", "2023-01-02T03:04:05.5-00:00"]), ("hex", ["01:ab:cd", "ff"]),
+    ("mac", ["00:11:22:33:44:55", "aa:bb:cc:dd:ee:ff"]), ("uuid", ["f81d4fae-7dec-11d0-a765-00a0c91e6bf6", "00000000-0000-0000-0000-000000000000"]),
+    ("dc", ["1.250", "-0.001"]), ("lr4", ["10.0.0.1%eth0", "10.0.0.11%wlan0"]), ("lrip", ["10.0.0.2%lo", "2001:db8::99%free"]),
+    ("lrxp", ["/a:tp/a:ip4[. = '1'] | count(//a:top)", "a:c/a:i8 + 1"]), ("lrid", ["a:id1", "a:id2"]),
+]
+
+
+def _own_tp_doc(pick=0, extra=""):
+    """<tp> with a value for every leaf (the pick-th of its list, modulo), a user-ordered leaf-list and a list whose keys own strings"""
+    ch = "".join("<%s>%s</%s>" % (n, vs[pick % len(vs)], n) for n, vs in _OWN_TP)
+    ch += "<ipl>10.0.0.7%e7</ipl><ipl>2001:db8::7%e8</ipl><ipk><a>10.0.0.9%k</a><p>10.3.0.0/16</p><x>/a:top | /a:c</x></ipk>"
+    if pick:
+        ch += "<ipk><a>2001:db8::9%k6</a><p>2001:db8:3::/48</p></ipk>"
+    return '<tp %s xmlns:a="urn:a">%s</tp><top %s xmlns:a="urn:a" a:ipm="10.0.0.5%%m" a:xpm="/a:top | //a:c" a:iim="/a:tul[.=\'q\']">t</top>%s' % (
+        _NSA, ch, _NSA, extra)
+
+
+# values re-resolved at validation time: targets in /a:tp and the union leaves that may refer to them (see MOD_A in impl/t_own.c)
+_OWN_UTGT = {"idr": ["a:id1", "a:id2"], "xp": ["/a:top | //a:c", "count(a:x)"], "iid": ["/a:top", "/a:tul[.='m']"], "bt": ["b0 b9", "b1"],
+             "bn": ["YWJjZA==", "YQ=="], "ip": ["10.0.0.2%lo", "2001:db8::2%e2"], "ip4": ["10.0.0.1%eth0", "10.0.0.11%wlan0"],
+             "dt": ["2023-01-02T03:04:05.678901+01:00", "2023-01-02T03:04:05Z"], "lrid": ["a:id1", "a:id2"]}
+_OWN_UNI = {"ulid": "idr", "ulxp": "xp", "ulii": "iid", "ulbt": "bt", "ulbn": "bn", "ulip": "ip", "uids": "lrid", "ull": "idr"}
+_OWN_TP_ORDER = ["ip4", "ip", "bn", "bt", "iid", "idr", "xp", "dt", "lrid", "ulid", "ulxp", "ulii", "ulbt", "ulbn", "ulip", "uiis", "uids", "ull", "ulidl"]
+
+
+def _own_union_doc(tsel, usel, fmt="x", top=True):
+    """/a:tp with the targets (value tsel of each, None: target missing) and the union leaves (value usel of their target's list)"""
+    vals = {}
+    for t_, vs in _OWN_UTGT.items():
+        if tsel is not None:
+            vals[t_] = [vs[tsel]]
+    if "lrid" in vals and "idr" in vals:
+        vals["lrid"] = vals["idr"]
+    for u_, t_ in _OWN_UNI.items():
+        vals[u_] = [_OWN_UTGT[t_][usel]]
+    vals["uiis"] = [["/a:top", "/a:tul[.='nope']"][usel]]
+    vals["ulidl"] = [_OWN_UTGT["idr"][usel], _OWN_UTGT["dt"][usel], "plain"]
+    if fmt == "x":
+        ch = "".join("<%s>%s</%s>" % (n, v, n) for n in _OWN_TP_ORDER for v in vals.get(n, []))
+        return '<tp %s xmlns:a="urn:a">%s</tp>%s' % (_NSA, ch, ('<top %s>t</top>' % _NSA) if top else "")
+    import json as _json
+    body = {}
+    for n in _OWN_TP_ORDER:
+        if n in vals:
+            body[n] = vals[n] if n == "ulidl" else vals[n][0]
+    doc = {"a:tp": body}
+    if top:
+        doc["a:top"] = "t"
+    return _json.dumps(doc)
+
 
 _OWN_C_LEAVES = ["i8", "s", "e", "lr", "u", "idr", "m", "w", "sl", "ul", "ca1", "ca2", "cb1"]
 _OWN_TOP_LEAVES = ["top", "tul", "sll"]
@@ -697,6 +771,16 @@ class _OwnDoc:
         if state and rng.random() < 0.2:
             for _ in range(rng.randrange(1, 4)):
                 parts.append("<sll %s>%s</sll>" % (_NSA, rng.choice(["s1", "s2"])))
+        if rng.random() < 0.15:
+            ch = "".join("<%s>%s</%s>" % (n, rng.choice(vs), n) for n, vs in _OWN_TP if rng.random() < 0.4)
+            for v in rng.sample(["10.0.0.7%e7", "2001:db8::7%e8", "10.0.0.8"], rng.randrange(0, 3)):
+                ch += "<ipl>%s</ipl>" % v
+            for u_, t_ in _OWN_UNI.items():
+                if rng.random() < 0.4:
+                    ch += "<%s>%s</%s>" % (u_, rng.choice(_OWN_UTGT[t_] + ["free text"]), u_)
+            for v in rng.sample(["a:id1", "a:id2", "2023-01-02T03:04:05Z", "x"], rng.randrange(0, 3)):
+                ch += "<ulidl>%s</ulidl>" % v
+            parts.append('<tp %s xmlns:a="urn:a">%s</tp>' % (_NSA, ch))
         if rng.random() < 0.3:
             ty = []
             for nm, vals in (("ii", ["/a:top", "/a:tul[.='m']", "/a:c/a:i8"]), ("iin", ["/a:tul[.='none']"]), ("lrt", ["t", "a", "c17-none"]),
@@ -880,6 +964,17 @@ class Ownership:
             if "act/ao" in p or "r/z" in p:
                 opts |= rng.choice([0, _NEW_OUTPUT])
             par = "%d.0" % sl() if (p.startswith("/") and r() < 0.85) else N()
+            if r() < 0.12:
+                n_, vs = rng.choice(_OWN_TP)
+                return ["path", par, "~", _hx("/a:tp/" + n_), _hx(rng.choice(vs)), rng.choice([0, _NEW_PATH_UPDATE, _NEW_PATH_UPDATE])]
+            if r() < 0.12:
+                # any node: the same few values again and again so that an update with an equal value is frequent
+                nm = rng.choice(["ad", "ax"])
+                v = rng.choice(['<top %s>v</top>' % _NSA, '{"a:top":"v"}', "text" if nm == "ax" else '<top %s>w</top>' % _NSA])
+                w_ = ["path", par, "~", _hx("/a:c/" + nm), _hx(v), rng.choice([0, _NEW_PATH_UPDATE, _NEW_PATH_UPDATE, _NEW_PATH_UPDATE])]
+                if r() < 0.3:
+                    w_.append("t%d" % sl())
+                return w_
             return [rng.choice(["path", "path", "path1"]), par, rng.choice("~~001"), _hx(p), _hx(v), opts]
         if k == "ins":
             return ["ins", rng.choice("ccssba"), N(), N()]
@@ -914,6 +1009,8 @@ class Ownership:
             return ["dupmeta", N(), rng.randrange(3), N()]
         if k == "anystr":
             return ["anystr", N()]
+        if k == "lybrt":
+            return ["lybrt", sl(), sl(), rng.choice([0, 0, _P_ONLY, _P_ONLY, _P_STRICT]), rng.choice([0, 0, _V_PRESENT, _V_MULTI])]
         if k == "anycopy":
             return ["anycopy", N(), rng.choice(["~", N(), N()])]
         if k == "dup":
@@ -959,7 +1056,7 @@ class Ownership:
     KINDS = (["parse"] * 6 + ["parsej"] * 2 + ["parsep"] * 2 + ["parseop"] * 2 + ["reply"] + ["term"] * 4 + ["inner"] * 2 + ["list"] * 2 +
              ["list2"] * 2 + ["any"] * 4 + ["opaq"] * 2 + ["meta"] * 3 + ["attr"] + ["path"] * 6 + ["ins"] * 8 + ["unlink"] * 3 + ["free"] +
              ["freen"] * 3 + ["freesib"] + ["chg"] * 3 + ["chgmeta"] + ["vval"] * 5 + ["vcmp"] * 2 + ["chgcanon", "chgbin"] + ["freemeta"] * 2 +
-             ["freeattr"] * 2 + ["dupmeta", "anystr", "anycopy", "anycopy"] + ["dup"] * 5 + ["merge"] * 5 + ["diff"] * 4 + ["apply"] * 4 + ["rev"] * 2 +
+             ["freeattr"] * 2 + ["dupmeta", "anystr", "anycopy", "anycopy"] + ["lybrt"] * 3 + ["dup"] * 5 + ["merge"] * 5 + ["diff"] * 4 + ["apply"] * 4 + ["rev"] * 2 +
              ["dmerge"] * 2 + ["val"] * 3 + ["valmod"] + ["valop"] + ["impl"] * 2 + ["xfind"] * 2 + ["print"] * 2 + ["lys"] * 2)
 
     # ---- fixed scripts: the deliberately failing calls, one construct per case ------------------------------------------
@@ -978,6 +1075,12 @@ class Ownership:
             ("parse-multi-error-opaq-child-assert", [P("0", '<l %s><zz/><k1>b</k1><v>v1</v></l>' % A, 0, 393216, _V_MULTI)]),
             ("print-json-fail-open-set-leak",
              [['parse', '0', 'x', '0', '0', '3c756c3220786d6c6e733d2275726e3a61223e3c6b3e613c2f6b3e3c763e613c2f763e3c2f756c323e3c6c20786d6c6e733d2275726e3a61223e3c6b313e613c2f6b313e3c6b323e323c2f6b323e3c2f6c3e3c747920786d6c6e733d2275726e3a61223e3c626e3e59513d3d3c2f626e3e3c62743e62302062323c2f62743e3c656d3e3c2f656d3e3c2f74793e3c6320786d6c6e733d2275726e3a61223e3c736c3e7a3c2f736c3e3c756c3e343c2f756c3e3c69383e3130303c2f69383e3c756c3e323c2f756c3e3c6f6c3e3c6b3e783c2f6b3e3c2f6f6c3e3c6d3e313c2f6d3e3c756c3e333c2f756c3e3c773e773c2f773e3c756c3e313c2f756c3e3c6361313e313c2f6361313e3c6f6c3e3c6b3e7a3c2f6b3e3c763e363c2f763e3c2f6f6c3e3c61642f3e3c2f633e', '0'], ['parse', '0', 'x', '0', '0', '3c6320786d6c6e733d2275726e3a61223e3c6c723e623c2f6c723e3c6f6c3e3c6b3e713c2f6b3e3c763e373c2f763e3c2f6f6c3e3c736c3e783c2f736c3e3c61643e3c782f3e3c2f61643e3c69383e373c2f69383e3c653e6f6e653c2f653e3c756c3e393c2f756c3e3c736c3e7a7a3c2f736c3e3c736c3e7a3c2f736c3e3c756c3e313c2f756c3e3c756c3e333c2f756c3e3c733e613c2f733e3c753e783c2f753e3c2f633e3c736c6c20786d6c6e733d2275726e3a61223e73323c2f736c6c3e3c6c20786d6c6e733d2275726e3a61223e3c6b313e623c2f6b313e3c6b323e333c2f6b323e3c2f6c3e3c746f7020786d6c6e733d2275726e3a612220786d6c6e733a613d2275726e3a612220613a6e6f74653d226e74223e6d3c2f746f703e3c74756c20786d6c6e733d2275726e3a61223e6d3c2f74756c3e3c6b6c20786d6c6e733d2275726e3a61223e3c613e323c2f613e3c2f6b6c3e3c626320786d6c6e733d2275726e3a62223e3c626c3e623c2f626c3e3c626c6c3e343c2f626c6c3e3c626c6c3e323c2f626c6c3e3c2f62633e3c736c6c20786d6c6e733d2275726e3a61223e73313c2f736c6c3e3c736c6c20786d6c6e733d2275726e3a61223e73323c2f736c6c3e3c6b6c20786d6c6e733d2275726e3a61223e3c613e313c2f613e3c2f6b6c3e3c6b6c20786d6c6e733d2275726e3a61223e3c613e323c2f613e3c2f6b6c3e3c74756c20786d6c6e733d2275726e3a61223e703c2f74756c3e3c74756c20786d6c6e733d2275726e3a61223e6e3c2f74756c3e', '1'], ['diff', '0', '1', '0', '4'], ['rev', '4', '5'], ['print', '5.2', 'j', '65']]),
+            ("dup-to-ctx-store-fail-double-free",
+             [P("0", '<tp %s xmlns:a="urn:a"><uip>/a:tp/a:ipk[a:a=\'10.0.0.9%%k\'][a:p=\'10.3.0.0/16\']/a:x</uip></tp>' % A, 0, _P_ONLY),
+              ["dup", "0.0", "~", _DUP_REC, 1, "b", "1"]]),
+            ("print-json-single-list-instance-open-array",
+             [P("1", '<l %s><k1>a</k1><v>v1</v></l><l %s><k1>b</k1><v>v1</v></l><ul2 %s><k>d</k></ul2><l %s><k1>a</k1><v>v1</v></l>' % (A, A, A, A), 2,
+                _P_ONLY | _P_OPAQ), ["print", "2.2", "j", 4]]),
             ("merge-destruct-cb-fail-frees-target",
              [P("0", '<top %s>t</top>' % A, 0, _P_ONLY), P("0", '<tul %s>n</tul><tul %s>m</tul>' % (A, A), 1, _P_ONLY),
               ["merge", 0, 1, _MERGE_DESTRUCT, "m", 1, "~"]]),
@@ -1126,6 +1229,78 @@ class Ownership:
                  ["anystr", "0.1"], ["anycopy", "2.1", "~"], ["anycopy", "2.1", "0.1"],
                  setup=[P("0", '<c %s/>' % _NSA, 0, _P_ONLY), P("0", '<top %s>in</top>' % _NSA, 1, _P_ONLY),
                         P("0", '<c %s><ad><x/></ad></c>' % _NSA, 2, _P_ONLY)])
+        # per-type dup / free balance: every type whose values own something (zones, prefixes, bit arrays, buffers, compiled paths
+        # and expressions, identities, fractions) with every optional part present, duplicated through every path that copies
+        # values (lyd_dup_single with and without recursion / parents / other context, lyd_dup_meta_single, diff, merge, apply,
+        # anydata data trees, lyd_any_copy_value, lyd_change_term_canon to the same value) and freed in both orders
+        TP0, TP1 = _own_tp_doc(0), _own_tp_doc(1)
+        TB = [P("0", TP0, 0, _P_ONLY), P("0", TP1, 1, _P_ONLY), P("1", TP0, 2, _P_ONLY), P("0", '<c %s/>' % _NSA, 3, _P_ONLY)]
+        ntp = len(_OWN_TP) + 9
+        for first in (0, 5):
+            case(["dup", "0.0", "~", _DUP_REC, 5, "b", "~"], ["free", first], ["print", "%d.0" % (5 - first), "x", 1], ["free", 5 - first],
+                 ["dup", "1.0", "~", _DUP_REC, 4, "b", "1"], ["free", 1 if first else 4], ["free", 4 if first else 1], ["dup", "2.0", "~", _DUP_REC, 6, "b", "0"],
+                 ["free", 2 if first else 6], ["free", 6 if first else 2], setup=TB)
+        for i0 in range(1, ntp, 6):
+            cmds = []
+            for i in range(i0, min(i0 + 6, ntp)):
+                cmds += [["dup", "0.%d" % i, "~", 0, 5, "s", "~"], ["free", 5], ["dup", "0.%d" % i, "~", _DUP_REC | _DUP_PARENTS, 5, "s", "~"], ["chgcanon", "0.%d" % i, "5.1"],
+                         ["free", 5], ["dup", "0.%d" % i, "~", _DUP_PARENTS, 5, "s", "1"], ["vcmp", "0.%d" % i, h("x")], ["chgcanon", "0.%d" % i, "0.%d" % i], ["free", 5]]
+            case(*cmds, setup=TB)
+            case(*cmds, ["free", 0], setup=TB)
+        for order in ((0, 1, 4, 5), (5, 4, 1, 0), (4, 0, 5, 1)):
+            case(["diff", 0, 1, 0, 4], ["dup", "0.0", "~", _DUP_REC, 5, "b", "~"], ["apply", 5, 4], ["rev", 4, 6], ["apply", 5, 6], ["dmerge", 4, 6, 0],
+                 ["merge", 5, 1, 0, "s"], ["merge", 5, 0, 0, "s"], *[["free", k] for k in order], ["free", 6], setup=TB)
+            case(["dup", "0.0", "~", _DUP_REC, 5, "b", "~"], ["merge", 0, 5, _MERGE_DESTRUCT, "s"], ["merge", 0, 1, 0, "m", 0, "~"], ["merge", 1, 0, _MERGE_DESTRUCT, "s"],
+                 *[["free", k] for k in order], setup=TB)
+        for i in range(3):
+            case(["dupmeta", "0.%d" % (ntp + 4), i, "3.0"], ["dupmeta", "0.%d" % (ntp + 4), i, "1.1"], ["freemeta", "3.0", 0, "s"], ["chgmeta", "0.%d" % (ntp + 4), i, h("10.0.0.5%m")],
+                 ["chgmeta", "0.%d" % (ntp + 4), i, h("/a:top | //a:c")], ["free", 0], ["freemeta", "1.1", 0, "a"], setup=TB)
+        case(["any", "3.0", "~", h("ad"), "t", 0, 0, 4], ["anycopy", "3.1", "3.1"], ["dup", "3.0", "~", _DUP_REC, 5, "b", "~"], ["anycopy", "5.1", "3.1"], ["anycopy", "3.1", "5.1"],
+             ["path", "3.0", "~", h("/a:c/ad"), "-", _NEW_PATH_UPDATE, "t0"], ["path", "3.0", "~", h("/a:c/ad"), "-", _NEW_PATH_UPDATE, "t1"], ["free", 0],
+             ["path", "3.0", "~", h("/a:c/ad"), "-", _NEW_PATH_UPDATE, "t1"], ["anystr", "3.1"], ["free", 3], ["free", 5], setup=TB)
+        # update-style calls with the SAME value, another value and on missing nodes: lyd_new_path2 with LYD_NEW_PATH_UPDATE on leaf,
+        # leaf-list, list, anydata / anyxml (string, XML, JSON, data tree), every /a:tp leaf; lyd_change_term / lyd_change_meta to the
+        # same value; merge of identical trees; lyd_any_copy_value of an equal value
+        U = _NEW_PATH_UPDATE
+        upd = [("/a:c/i8", "11", "12"), ("/a:c/s", "abc", "zz"), ("/a:c/sl[.='x']", None, None), ("/a:c/sl", "x", "q"), ("/a:c/ul", "1", "7"),
+               ("/a:l[k1='a'][k2='1']", None, None), ("/a:l[k1='a'][k2='1']/v", "v1", "v2"), ("/a:c/ol[k='x']/v", "1", "2"), ("/a:top", "t", "u"),
+               ("/a:c/ax", "text", "other"), ("/a:c/ax", "<q><r/></q>", "<q/>"), ("/a:c/ax", '{"a:top":"v"}', '{"a:top":"w"}'),
+               ("/a:c/ad", '<top %s>v</top>' % _NSA, '<top %s>w</top>' % _NSA), ("/a:c/ad", '{"a:top":"v"}', '{"a:top":"w"}'),
+               ("/a:c/ad", "<x><y>1</y><y>2</y></x>", "<x><y>1</y></x>")]
+        upd += [("/a:tp/" + n_, vs[0], vs[1]) for n_, vs in _OWN_TP]
+        for path_, same, other in upd:
+            for opts in (U, 0):
+                case(["path", "5.0", "0", h(path_), h(same) if same is not None else "~", opts], ["path", "5.0", "~", h(path_), h(same) if same is not None else "~", opts],
+                     ["path", "5.0", "~", h(path_), h(same) if same is not None else "~", opts], ["path", "5.0", "~", h(path_), h(other) if other is not None else "~", opts],
+                     ["path", "5.0", "~", h(path_), h(other) if other is not None else "~", opts], ["path", "5.0", "~", h(path_), h(same) if same is not None else "~", opts],
+                     ["path", "0.0", "~", h(path_), h(same) if same is not None else "~", opts], ["path", "0.0", "~", h(path_), h(same) if same is not None else "~", opts],
+                     ["path", "1.0", "~", h(path_), h(other) if other is not None else "~", opts], setup=TB[:2] + [B[0]])
+        for tslot in (0, 1):
+            case(["path", "3.0", "~", h("/a:c/ad"), "-", U, "t%d" % tslot], ["path", "3.0", "~", h("/a:c/ad"), "-", U, "t%d" % tslot],
+                 ["path", "3.0", "~", h("/a:c/ad"), "-", U, "t%d" % (1 - tslot)], ["path", "3.0", "~", h("/a:c/ad"), "-", U, "t%d" % (1 - tslot)],
+                 ["path", "3.0", "~", h("/a:c/ad"), "-", 0, "t0"], ["path", "3.0", "~", h("/a:c/ax"), "-", U, "t0"], ["path", "3.0", "~", h("/a:c/ax"), "-", U, "t0"], setup=TB)
+        for i in range(1, ntp + 8, 5):
+            case(*[[cmd, "0.%d" % j, x] for j in range(i, i + 5) for cmd, x in (("chgcanon", "0.%d" % j), ("chgcanon", "2.%d" % j), ("chgcanon", "1.%d" % j),
+                                                                               ("chgcanon", "0.%d" % j))], setup=TB)
+        case(["dup", "0.0", "~", _DUP_REC, 5, "b", "~"], ["merge", 0, 5, 0, "s"], ["merge", 0, 5, _MERGE_DEFAULTS | _MERGE_FLAGS, "t"], ["merge", 5, 0, _MERGE_DESTRUCT, "s"],
+             ["dup", "5.0", "~", _DUP_REC, 6, "b", "~"], ["merge", 6, 5, _MERGE_DESTRUCT, "m", 0, "a0"], setup=TB)
+        case(["dup", "0.0", "~", _DUP_REC, 5, "b", "~"], ["merge", 0, 5, 0, "s"], ["merge", 5, 0, _MERGE_DESTRUCT, "t"], setup=[B[0]])
+        # values re-resolved at validation time: unions with leafref (to identityref, xpath, instance-identifier, bits, binary, ip-address,
+        # another leafref), instance-identifier and identityref members, stored with LYD_PARSE_ONLY from XML / JSON / LYB and validated with
+        # the targets present, absent and changed between store and validation (the member type changes), plus LYB round trips
+        for fmt in "xj":
+            for tsel, usel in ((0, 0), (0, 1), (1, 0), (None, 0), (None, 1)):
+                doc = _own_union_doc(tsel, usel, fmt)
+                chg_t = [["path", "0.0", "~", h("/a:tp/" + t_), h(vs[1 if tsel == 0 else 0]), U] for t_, vs in _OWN_UTGT.items()]
+                chg_u = [["path", "0.0", "~", h("/a:tp/" + u_), h(_OWN_UTGT[t_][1 - usel]), U] for u_, t_ in _OWN_UNI.items()]
+                for vo in (0, _V_MULTI):
+                    case(["lybrt", 0, 1, _P_ONLY, 0], ["lybrt", 0, 2, 0, vo], ["val", 1, "~", vo, 0, 5], ["lybrt", 1, 3, 0, vo], ["lybrt", 1, 4, _P_ONLY, 0],
+                         ["val", 0, "~", vo, 1, 5], ["lybrt", 0, 2, 0, vo], *chg_t, ["val", 0, "~", vo, 0, 5], ["lybrt", 0, 3, 0, vo], ["val", 4, "~", vo, 1, 5],
+                         *chg_u, ["val", 0, "~", vo, 0, 5], ["lybrt", 0, 2, _P_ONLY, 0], ["val", 2, "~", vo, 0, 5], ["dup", "0.0", "~", _DUP_REC, 6, "b", "~"],
+                         ["merge", 6, 1, 0, "s"], ["val", 6, "~", vo, 0, 5], ["free", 0], ["lybrt", 6, 0, 0, vo],
+                         setup=[P("0", doc, 0, _P_ONLY, 0, fmt)])
+                case(["lybrt", 0, 1, 0, 0], ["lybrt", 1, 2, _P_ONLY, 0], ["diff", 0, 1, 0, 4], ["val", 2, "~", 0, 0, 5], ["lybrt", 2, 3, 0, _V_PRESENT],
+                     setup=[P("0", doc, 0, 0, 0, fmt)])
         # callbacks that fail at every position: lyd_merge_module (with and without DESTRUCT: the source is spent on failure
         # too, or untouched), lyd_diff_apply_module, lyd_diff_merge_module
         for opts in (0, _MERGE_DESTRUCT, _MERGE_DESTRUCT | _MERGE_DEFAULTS):
@@ -1212,7 +1387,7 @@ class Ownership:
         return L
 
     # ---- verdict ----------------------------------------------------------------------------------------------------
-    END = _re.compile(r"end:d(-?\d+),(-?\d+)/(-?\d+),(-?\d+):w(\d+):k(\d+)(?:@(-?\d+):([a-z0-9]+)(?:~([a-z0-9-]*))?)?:l(\d+)$")
+    END = _re.compile(r"end:d(-?\d+),(-?\d+)/(-?\d+),(-?\d+):w(\d+):k(\d+)(?:@(-?\d+):([a-z0-9]+)(?:~([a-z0-9-]*))?)?:l(\d+)(?::n(\d+))?$")
     FLAG = _re.compile(r"(OUT|CHG|UNREL|LINK|TFREED|FREED|NC|REST|DICT|CTX|NOTFIRST|LOGLOC|ANYPTR)!")
     FLAGTAG = {"OUT": "out-not-null", "CHG": "input-changed", "UNREL": "unrelated-changed", "LINK": "link-broken", "FREED": "input-freed",
                "NC": "not-consumed", "REST": "free-changed-rest", "DICT": "dict-changed-by-failed-load", "CTX": "context-broken-by-load",
@@ -1221,6 +1396,8 @@ class Ownership:
 
     # crash signatures (stderr of the crashed case) -> tag; the first that matches
     CRASHES = [
+        (r"heap-use-after-free(?s:.*?)lyplg_type_free_union(?s:.*?)lyd_dup_r", "dup", "dup-to-ctx-store-fail-double-free"),
+        (r"json_print_data.*Assertion `!pctx.open.count'", "print", "print-json-single-list-instance-open-array"),
         (r"lydxml_subtree_r.*Assertion `xmlctx->status == LYXML_ELEM_CONTENT'", "parse", "parse-multi-error-bad-meta-assert"),
         (r"heap-use-after-free(?s:.*?)in lyd_mod_next_module", None, "validate-first-node-autodel-uaf"),
         (r"lyd_insert_after_node.*Assertion `!node->next && \(node->prev == node\) && \(sibling != node\)'", "ins",
@@ -1278,7 +1455,10 @@ class Ownership:
                 return (tag, "command %d %s" % (i, p))
             if p.endswith(":?"):
                 return (None, "generator produced a malformed command %d: %s" % (i, p))
-        du0, dr0, du1, dr1, w, k, kidx, kcmd, kerr, lsan = m.groups()
+        du0, dr0, du1, dr1, w, k, kidx, kcmd, kerr, lsan, nfound = m.groups()
+        if nfound and nfound != "0":
+            return ("dict-not-found", "%s 'Value ... was not found in the dictionary' error(s): a reference was released that nobody "
+                                      "held or that belonged to another holder; %s" % (nfound, parts[-1]))
         if int(k):
             tag = "leak:%s" % kcmd + ("~" + kerr if kerr else "")
             w_ = self.cmd_of(line, int(kidx))
